@@ -314,6 +314,10 @@ def prim(ast, e, env):
         return fnm.fnmatch(args[0], e.name, name == "-iname")
     if name in ("-path", "-ipath", "-wholename", "-iwholename"):
         return fnm.fnmatch(args[0], e.path, name.startswith("-i"))
+    if name in ("-regex", "-iregex"):
+        # only the subset literal / '.' / '*' / '.*' (same meaning in every find syntax and in Python re)
+        import re as _re
+        return _re.fullmatch(args[0], e.path, (_re.I if name == "-iregex" else 0) | _re.S) is not None
     if name == "-type":
         return e.type_letter() == args[0]
     if name == "-xtype":
